@@ -7,6 +7,7 @@ followed by `S <counter> <n>` statistics lines.  Imports Model/ only (links as a
 import DelaunayModel.Model.Proto
 import DelaunayModel.Model.Pred
 import Driver.CxHandlers
+import Driver.GeoHandlers
 open DM
 
 def optIntTok : Option Int → String
@@ -105,6 +106,9 @@ def dispatch (c : Case) : Res :=
   | "pred" => runPred c
   | "cx" => runCx c
   | "dup" => runDup c
+  | "loc" => runLoc c
+  | "hull" => runHull c
+  | "qry" => runQry c
   | k => { status := "DISAGREE", detail := s!"unknown case kind {k}" }
 
 partial def readAll (h : IO.FS.Stream) (acc : Array String) : IO (Array String) := do
